@@ -121,7 +121,8 @@ def rebase_conflict_multi_commit(trace, viol):
     st = viol.get("step")
     # the rewritten range has two or more commits (a single-commit rebase with a conflict is handled correctly)
     fr = _feature_range(trace)
-    n_commits = sum(1 for o in _ops(trace)[fr[0]:fr[1]] if _is_git(o, "commit")) if fr else 2
+    where = _ops(trace)[fr[0]].get("repo") if fr else None
+    n_commits = sum(1 for o in _ops(trace)[fr[0]:fr[1]] if _is_git(o, "commit") and o.get("repo") == where) if fr else 2
     return res is not None and isinstance(st, int) and st > res and "rebase" in _step_argv(trace, viol) and n_commits >= 2
 
 
